@@ -65,6 +65,23 @@ func hcCalls() []hcCall {
 		{"Var(7, le=3)", func() string { return hcErr(Var(7, "required", "le=3")) }},
 		{"Map", func() string { return hcErr(Map(map[string]string{"a": "", "b": "xyz"}, NewRule().Set("a", "required").Set("b", "to=1~2"))) }},
 		{"Url", func() string { return hcErr(Url("http://h/p?a=1&b=xyz", NewRule().Set("a", "ge=5").Set("b", "to=1~2"))) }},
+		{"MapFn(custom rule x)", func() string {
+			return hcErr(MapFn(map[string]string{"a": "v"}, NewRule().Set("a", "x,phone"), Name2FnMap{"x": fn, "phone": fn}))
+		}},
+		{"Map(rule x, no function)", func() string { return hcErr(Map(map[string]string{"a": "v"}, NewRule().Set("a", "x,phone"))) }},
+		{"VarForFn(fn)", func() string { return hcErr(VarForFn("v", fn)) }},
+		{"Var(rule y, no function)", func() string { return hcErr(Var("v", "y", "email")) }},
+		{"VVar with per-call y", func() string { return hcErr(NewVVar().SetRules("y", "email").SetValidFn("y", fn).SetValidFn("email", fn).Valid("v")) }},
+		{"UrlForFn(custom rule int)", func() string { return hcErr(UrlForFn("h?a=v", "int", fn)) }},
+		{"VUrl with per-call z", func() string { return hcErr(NewVUrl().SetRule(NewRule().Set("a", "z,int")).SetValidFn("z", fn).SetValidFn("int", fn).Valid("h?a=v")) }},
+		{"Url(rule z, no function)", func() string { return hcErr(Url("h?a=v", NewRule().Set("a", "z,int"))) }},
+		{"StructForFns(bare clause builder)", func() string {
+			bare := func(errBuf *strings.Builder, validName, objName, fieldName string, tv reflect.Value) {
+				errBuf.WriteString(GetJoinValidErrStr(objName, fieldName, tv.String()))
+			}
+			return hcErr(StructForFns(u1, nil, Name2FnMap{"phone": bare, "to": bare}))
+		}},
+		{"Struct(nil, rules)", func() string { return hcErr(Struct((*hcUser)(nil), ruleA())) }},
 		{"SetRule twice", func() string {
 			base := NewRule().Set("Name", "required")
 			vs := NewVStruct().SetRule(base).SetRule(NewRule().Set("Age", "ge=100"))
